@@ -619,9 +619,14 @@ class World:
 
                 crit = getattr(qc, cname + "Criteria")()
             try:
-                mc.add_move(mv, criteria=crit, name=mname, interval=entry.get("interval", 1),
-                            probability=entry.get("probability", 1.0),
-                            minimum_count=entry.get("minimum_count", 0))
+                akw = {"criteria": crit, "interval": entry.get("interval", 1), "probability": entry.get("probability", 1.0),
+                       "minimum_count": entry.get("minimum_count", 0)}
+                if not entry.get("unnamed"):
+                    akw["name"] = mname
+                mc.add_move(mv, **akw)
+                if entry.get("unnamed"):
+                    # the user gave no name: the entry lives under whatever name the driver chose
+                    mname = next((k for k, st in mc.moves.items() if st.move is mv), mname)
             except ValueError:
                 if not self.opts.get("allow_add_move_error"):
                     raise
